@@ -148,7 +148,13 @@ def run_cases(chk, cases, oracle_sig='trace-differs-from-source-semantics', do_g
                 if 'vm' not in mine:
                     stats['uninterpreted'] += 1
             elif sem_filter is None or sem_filter(c, status, events):
-                ok, i, why = vmwire.events_match(c.res.events, events, slack)
+                if impl_fault and status.startswith('fault'):
+                    # both stop with a run-time error: the source semantics drops what the
+                    # faulting statement had already emitted, so compare the common prefix
+                    spec = [e for e in events if e[0] != 'FL']
+                    ok, i, why = vmwire.events_match(c.res.events[:len(spec)], spec, slack)
+                else:
+                    ok, i, why = vmwire.events_match(c.res.events, events, slack)
                 # a script the source semantics runs to the end must not fault in the VM, and
                 # must produce the same commands, waits and output
                 if (impl_fault and not status.startswith('fault')) or \
